@@ -276,6 +276,8 @@ class ExecFull(ExecPlaces):
             self.type_hint(fr, nm, ty)
         for nm, text in spec.get("entry", {}).items():
             fr.env[nm] = self.eval_value_clause(text, fr)
+        for h in spec.get("hints_init", []):
+            self.eval_clause(h, fr, hint=True)
 
     def loop_pre_iteration(self, spec, fr):
         """snapshots `x0` of the variables named in spec['pre'], then spec['lets']"""
@@ -287,6 +289,10 @@ class ExecFull(ExecPlaces):
     def loop_back_edge(self, spec, fr, node, k):
         for h in spec.get("hints_end", []):
             self.eval_clause(h, fr, hint=True)
+        for i, cl in enumerate(spec.get("asserts_end", [])):
+            z = self.eval_clause(cl, fr)  # intermediate fact: proved here, then available to inv-keep
+            self.oblige("assert", z, node, tag=f"#{k}.{i}")
+            self.p.assume(z)
         for i, cl in enumerate(spec.get("step", [])):
             z = self.eval_clause(cl, fr)
             self.oblige("step", z, node, tag=f"#{k}.{i}")
